@@ -156,7 +156,7 @@ def c_swap_arms(fn, ref):
     out = []
     for bi, (o, f) in enumerate(blocks(fn)):
         for i, s in enumerate(getattr(o, f)):
-            if isinstance(s, ast.If) and s.orelse and not (len(s.orelse) == 1 and isinstance(s.orelse[0], ast.If)):
+            if isinstance(s, ast.If) and s.orelse:
                 out.append((bi, i))
     return out
 
@@ -954,6 +954,9 @@ def c_tail_merge(fn, ref):
             if isinstance(s, ast.If) and s.orelse and len(s.body) > 1 and len(s.orelse) > 1 and isinstance(s.body[-1], (ast.Assign, ast.Expr, ast.AugAssign)) \
                     and ast.dump(s.body[-1]) == ast.dump(s.orelse[-1]):
                 out.append((bi, i))
+            elif isinstance(s, ast.If) and s.orelse and i == len(getattr(o, f)) - 1 and isinstance(s.body[-1], ast.Return) and isinstance(s.orelse[-1], ast.Return) \
+                    and ast.dump(s.body[-1]) == ast.dump(s.orelse[-1]):
+                out.append((bi, i))
     return out
 
 
@@ -963,6 +966,10 @@ def a_tail_merge(fn, bi, i):
     s = b[i]
     t = s.body.pop()
     s.orelse.pop()
+    if not s.body:
+        s.body.append(ast.Pass())
+    if not s.orelse and False:
+        pass
     b.insert(i + 1, t)
     return True
 
